@@ -24,6 +24,9 @@ Proof. destruct b; cbn; split; intros; congruence. Qed.
 Lemma repeat_app_comm {A} (x : A) n l : repeat x n ++ x :: l = x :: repeat x n ++ l.
 Proof. induction n; cbn; [reflexivity|]. rewrite IHn. reflexivity. Qed.
 
+Lemma map_repeat' {A B} (f : A -> B) x n : map f (repeat x n) = repeat (f x) n.
+Proof. induction n; cbn; [reflexivity|]. rewrite IHn. reflexivity. Qed.
+
 Lemma rev_repeat {A} (x : A) n : rev (repeat x n) = repeat x n.
 Proof.
   induction n; cbn; [reflexivity|]. rewrite IHn.
@@ -203,3 +206,636 @@ Definition raw_of_call (c : call) : raw :=
       let he := existsb (fun '(b, l) => b && (l =? 0)) info in
       ROffsets norm v he (length norm - 1) sp
   end.
+
+(* ---------------------------------------------------------------------------------------------- *)
+(* 2.1 entries: basic facts                                                                        *)
+
+Definition all_spec (l : list ent) : Prop := Forall (fun e => is_slot e = false) l.
+Definition ent_enc_ok (e : ent) : Prop :=
+  match e with Slot _ d => d <= SPECIAL_THRESHOLD | Spec _ d => 1 <= d end.
+
+Lemma enc_special e : ent_enc_ok e -> is_special (enc_def e) = negb (is_slot e).
+Proof.
+  unfold is_special, SPECIAL_THRESHOLD. destruct e as [r d|r d]; cbn [enc_def is_slot negb ent_enc_ok]; intros H.
+  - apply N.ltb_ge. exact H.
+  - apply N.ltb_lt. unfold SPECIAL_THRESHOLD. lia.
+Qed.
+
+Lemma slots_app a b : slots (a ++ b) = (slots a + slots b)%nat.
+Proof. unfold slots. rewrite filter_app, app_length. reflexivity. Qed.
+Lemma specs_app a b : specs (a ++ b) = (specs a + specs b)%nat.
+Proof. unfold specs. rewrite filter_app, app_length. reflexivity. Qed.
+Lemma slots_cons_slot r d t : slots (Slot r d :: t) = S (slots t).
+Proof. reflexivity. Qed.
+Lemma slots_cons_spec r d t : slots (Spec r d :: t) = slots t.
+Proof. reflexivity. Qed.
+Lemma specs_cons_slot r d t : specs (Slot r d :: t) = specs t.
+Proof. reflexivity. Qed.
+Lemma specs_cons_spec r d t : specs (Spec r d :: t) = S (specs t).
+Proof. reflexivity. Qed.
+
+Lemma slots_specs_length es : (slots es + specs es)%nat = length es.
+Proof.
+  induction es as [|[r d|r d] t IH]; [reflexivity| |].
+  - rewrite slots_cons_slot, specs_cons_slot. cbn [length]. lia.
+  - rewrite slots_cons_spec, specs_cons_spec. cbn [length]. lia.
+Qed.
+
+Lemma all_spec_slots l : all_spec l -> slots l = O.
+Proof.
+  induction 1 as [|e t He _ IH]; [reflexivity|]. destruct e; cbn in He; [discriminate|].
+  rewrite slots_cons_spec. exact IH.
+Qed.
+Lemma all_spec_specs l : all_spec l -> specs l = length l.
+Proof. intros H. pose proof (slots_specs_length l). rewrite (all_spec_slots l H) in *. lia. Qed.
+
+Lemma slots_zero_all_spec es : slots es = O -> all_spec es.
+Proof.
+  induction es as [|[r d|r d] t IH]; intros H.
+  - constructor.
+  - rewrite slots_cons_slot in H. discriminate.
+  - rewrite slots_cons_spec in H. constructor; [reflexivity | exact (IH H)].
+Qed.
+
+Lemma split_first_slot es n : slots es = S n ->
+  exists pre r d rest, es = pre ++ Slot r d :: rest /\ all_spec pre /\ slots rest = n.
+Proof.
+  induction es as [|[r d|r d] t IH]; intros H.
+  - discriminate.
+  - exists [], r, d, t. rewrite slots_cons_slot in H. repeat split; [constructor | congruence].
+  - rewrite slots_cons_spec in H. destruct (IH H) as (pre & r' & d' & rest & E & Hp & Hs).
+    exists (Spec r d :: pre), r', d', rest. subst t. repeat split; [constructor; [reflexivity|exact Hp] | exact Hs].
+Qed.
+
+Lemma sv_pre vs nl pre l : all_spec pre -> sv vs nl (pre ++ l) = pre ++ sv vs nl l.
+Proof.
+  induction 1 as [|e t He _ IH]; [reflexivity|]. destruct e; cbn in He; [discriminate|].
+  cbn [app sv]. rewrite IH. reflexivity.
+Qed.
+Lemma sv_all_spec vs nl l : all_spec l -> sv vs nl l = l.
+Proof. intros H. rewrite <- (app_nil_r l) at 1. rewrite sv_pre by exact H. cbn. apply app_nil_r. Qed.
+Lemma so_pre lens rl el pre l : all_spec pre -> so lens rl el (pre ++ l) = pre ++ so lens rl el l.
+Proof.
+  induction 1 as [|e t He _ IH]; [reflexivity|]. destruct e; cbn in He; [discriminate|].
+  cbn [app so]. rewrite IH. reflexivity.
+Qed.
+Lemma so_all_spec lens rl el l : all_spec l -> so lens rl el l = l.
+Proof. intros H. rewrite <- (app_nil_r l) at 1. rewrite so_pre by exact H. cbn. apply app_nil_r. Qed.
+
+Lemma sv_length vs nl es : length (sv vs nl es) = length es.
+Proof.
+  revert vs; induction es as [|[r d|r d] t IH]; intros vs; [reflexivity| |].
+  - destruct vs; cbn [sv length]; rewrite IH; reflexivity.
+  - cbn [sv length]. rewrite IH. reflexivity.
+Qed.
+Lemma sv_slots vs nl es : slots (sv vs nl es) = slots es.
+Proof.
+  revert vs; induction es as [|[r d|r d] t IH]; intros vs; [reflexivity| |].
+  - destruct vs; cbn [sv]; rewrite !slots_cons_slot, IH; reflexivity.
+  - cbn [sv]. rewrite !slots_cons_spec, IH. reflexivity.
+Qed.
+Lemma sv_specs vs nl es : specs (sv vs nl es) = specs es.
+Proof. pose proof (slots_specs_length (sv vs nl es)). pose proof (slots_specs_length es).
+  rewrite sv_length, sv_slots in *. lia. Qed.
+
+Lemma sv_rep vs nl es : map e_rep (sv vs nl es) = map e_rep es.
+Proof.
+  revert vs; induction es as [|[r d|r d] t IH]; intros vs; [reflexivity| |].
+  - destruct vs; cbn [sv map e_rep]; rewrite IH; reflexivity.
+  - cbn [sv map e_rep]. rewrite IH. reflexivity.
+Qed.
+
+Lemma sv_enc_ok vs nl es : nl <= SPECIAL_THRESHOLD -> Forall ent_enc_ok es -> Forall ent_enc_ok (sv vs nl es).
+Proof.
+  intros Hnl H. revert vs. induction H as [|e t He _ IH]; intros vs; [constructor|].
+  destruct e as [r d|r d].
+  - destruct vs as [|v vs']; cbn [sv]; constructor; try apply IH; cbn in *; [exact He|].
+    destruct ((d =? 0) && negb v); [exact Hnl | exact He].
+  - cbn [sv]. constructor; [exact He | apply IH].
+Qed.
+
+(* ---------------------------------------------------------------------------------------------- *)
+(* 2.2 the read/write loops of do_record_validity                                                  *)
+
+Lemma skip_def_pre pre d0 rest w p :
+  all_spec pre -> Forall ent_enc_ok pre -> is_special d0 = false ->
+  skip_def (map enc_def pre ++ d0 :: rest) w p = Ok (d0, rest, rev (map enc_def pre) ++ w, (p + length pre)%nat).
+Proof.
+  intros Hs Hok Hd. revert w p. induction pre as [|e t IH]; intros w p.
+  - cbn. rewrite Hd. rewrite Nat.add_0_r. reflexivity.
+  - inversion Hs as [|? ? He Hs']; subst. inversion Hok as [|? ? Ho Hok']; subst.
+    cbn [map app skip_def]. rewrite (enc_special e Ho), He. cbn [negb].
+    rewrite (IH Hs' Hok'). cbn [rev length]. rewrite <- app_assoc. cbn [app].
+    f_equal. f_equal. lia.
+Qed.
+
+Lemma copy_n_all (l : list N) r w : copy_n (length l) (l ++ r) w = Ok (r, rev l ++ w).
+Proof.
+  revert w; induction l as [|x t IH]; intros w; [reflexivity|].
+  cbn [length app copy_n]. rewrite IH. cbn [rev]. rewrite <- app_assoc. reflexivity.
+Qed.
+
+Lemma drv_loop_spec nl : forall vs es w p junk,
+  Forall ent_enc_ok es -> slots es = length vs ->
+  exists body tr, es = body ++ tr /\ all_spec tr /\
+    drv_loop vs nl (map enc_def es ++ junk) w p
+      = Ok (map enc_def tr ++ junk, rev (map enc_def (sv vs nl body)) ++ w, (p + specs body)%nat).
+Proof.
+  induction vs as [|v vs IH]; intros es w p junk Hok Hsl.
+  - exists [], es. split; [reflexivity|]. split; [apply slots_zero_all_spec; exact Hsl|].
+    cbn. rewrite Nat.add_0_r. reflexivity.
+  - cbn [length] in Hsl. destruct (split_first_slot es _ Hsl) as (pre & r & d & rest & E & Hpre & Hrest). subst es.
+    apply Forall_app in Hok as [Hokpre Hok2]. inversion Hok2 as [|? ? Hslot Hokrest]; subst.
+    destruct (IH rest ((if (d =? 0) && negb v then nl else d) :: rev (map enc_def pre) ++ w) (p + length pre)%nat junk Hokrest Hrest)
+      as (body & tr & E & Htr & Hloop).
+    exists (pre ++ Slot r d :: body), tr. subst rest. split; [rewrite <- app_assoc; reflexivity|]. split; [exact Htr|].
+    cbn [drv_loop]. rewrite map_app, <- app_assoc. cbn [map app enc_def].
+    rewrite skip_def_pre; [|exact Hpre|exact Hokpre|].
+    2:{ unfold is_special. apply N.ltb_ge. exact Hslot. }
+    cbn [bind]. rewrite Hloop. f_equal. f_equal; [f_equal|].
+    + rewrite sv_pre by exact Hpre. cbn [sv]. rewrite map_app. cbn [map enc_def]. rewrite rev_app_distr. cbn [rev].
+      rewrite <- !app_assoc. cbn [app]. reflexivity.
+    + rewrite specs_app, specs_cons_slot, (all_spec_specs pre Hpre). lia.
+Qed.
+
+Lemma commit_ok w spare : (length w <= length spare)%nat -> commit w spare = Ok (rev w ++ skipn (length w) spare).
+Proof. intros H. unfold commit. apply Nat.leb_le in H. rewrite H. reflexivity. Qed.
+
+Lemma sv_app_trail vs nl body tr : all_spec tr -> sv vs nl (body ++ tr) = sv vs nl body ++ tr.
+Proof.
+  intros Ht. revert vs. induction body as [|[r d|r d] t IH]; intros vs.
+  - cbn [app]. apply sv_all_spec. exact Ht.
+  - destruct vs; cbn [app sv]; rewrite IH; reflexivity.
+  - cbn [app sv]. rewrite IH. reflexivity.
+Qed.
+
+(* ---------------------------------------------------------------------------------------------- *)
+(* 2.3 the context invariant                                                                       *)
+
+Record cinv (hr hd : bool) (total : nat) (c : ctx) (es : list ent) (cr cd : N) (ms : list meaning) (cl : nat) : Prop := {
+  cv_rep : if hr then exists j, c_rep c = map e_rep es ++ j /\ length (c_rep c) = total /\ length (c_srep c) = total
+           else c_rep c = [] /\ c_srep c = [];
+  cv_def : if hd then exists j, c_def c = map enc_def es ++ j /\ length (c_def c) = total /\ length (c_sdef c) = total
+           else c_def c = [] /\ c_sdef c = [] /\ Forall (fun e => e = Slot (e_rep e) 0) es;
+  cv_specs : c_specials c = specs es;
+  cv_len : c_len c = cl;
+  cv_enc : Forall ent_enc_ok es;
+  cv_cr : c_cur_rep c = cr;
+  cv_cd : c_cur_def c = cd;
+  cv_ms : c_meaning c = ms }.
+
+Lemma drv_ok hr total c es cr cd ms cl v nl :
+  cinv hr true total c es cr cd ms cl ->
+  slots es = length v -> nl <= SPECIAL_THRESHOLD ->
+  (cl = 0 \/ cl = length v + specs es)%nat ->
+  (length es <= total)%nat ->
+  exists c', do_record_validity c v nl = Ok c' /\ cinv hr true total c' (sv v nl es) cr cd ms (length v).
+Proof.
+  intros [Hrep Hdef Hsp Hlen Henc Hcr Hcd Hms] Hsl Hnl Hcl Htot.
+  destruct Hdef as (j & Ed & Ld & Lsd).
+  unfold do_record_validity.
+  pose proof (slots_specs_length es) as Hss.
+  replace (Nat.leb (length v + c_specials c) (length (c_def c))) with true
+    by (symmetry; apply Nat.leb_le; rewrite Hsp, Ld; lia).
+  cbn [assert_ bind].
+  replace (Nat.eqb (c_len c) 0 || Nat.eqb (c_len c) (length v + c_specials c)) with true.
+  2:{ symmetry. apply orb_true_iff. rewrite Hlen, Hsp. destruct Hcl as [->| ->]; [left|right]; apply Nat.eqb_refl. }
+  cbn [assert_ bind].
+  destruct (drv_loop_spec nl v es [] O j Henc Hsl) as (body & tr & E & Htr & Hloop).
+  rewrite Ed, Hloop. cbn [bind].
+  assert (Hsp2 : (c_specials c - (0 + specs body) = length (map enc_def tr))%nat).
+  { rewrite Hsp, E, specs_app, (all_spec_specs tr Htr), map_length. lia. }
+  rewrite Hsp2, copy_n_all. cbn [bind].
+  assert (Hw : rev (map enc_def tr) ++ rev (map enc_def (sv v nl body)) ++ [] = rev (map enc_def (sv v nl es))).
+  { rewrite app_nil_r, E, sv_app_trail by exact Htr. rewrite map_app, rev_app_distr. reflexivity. }
+  rewrite Hw. rewrite commit_ok.
+  2:{ rewrite rev_length, map_length, sv_length, Lsd. exact Htot. }
+  cbn [bind]. eexists. split; [reflexivity|].
+  constructor; cbn [c_rep c_srep c_def c_sdef c_specials c_len c_cur_rep c_cur_def c_meaning]; try assumption.
+  - destruct hr; [|exact Hrep]. rewrite sv_rep. exact Hrep.
+  - rewrite rev_involutive. eexists. split; [reflexivity|]. split; [|rewrite <- Ed; exact Ld].
+    rewrite app_length, skipn_length, !rev_length, !map_length, sv_length. lia.
+  - rewrite sv_specs. exact Hsp.
+  - reflexivity.
+  - apply sv_enc_ok; assumption.
+Qed.
+
+(* ---------------------------------------------------------------------------------------------- *)
+(* 2.4 record_offsets loops                                                                        *)
+
+(* every slot paired with the input element it consumes *)
+Fixpoint slot_pairs {A} (es : list ent) (xs : list A) : list (N * N * A) :=
+  match es with
+  | [] => []
+  | Spec _ _ :: t => slot_pairs t xs
+  | Slot r d :: t => match xs with x :: xs' => (r, d, x) :: slot_pairs t xs' | [] => [] end
+  end.
+
+Lemma slot_pairs_pre {A} pre l (xs : list A) : all_spec pre -> slot_pairs (pre ++ l) xs = slot_pairs l xs.
+Proof.
+  induction 1 as [|e t He _ IH]; [reflexivity|]. destruct e; cbn in He; [discriminate|]. cbn [app slot_pairs]. exact IH.
+Qed.
+
+Lemma slot_pairs_nil {A} es : @slot_pairs A es [] = [].
+Proof. induction es as [|[r d|r d] t IH]; [reflexivity|reflexivity|exact IH]. Qed.
+
+Definition so_el_ok (el : N) (es : list ent) (lens : list N) : Prop :=
+  Forall (fun '(_, d, len) => d = 0 -> len = 0 -> 1 <= el) (slot_pairs es lens).
+
+Lemma so_enc_ok lens rl el es :
+  so_el_ok el es lens -> Forall ent_enc_ok es -> Forall ent_enc_ok (so lens rl el es).
+Proof.
+  unfold so_el_ok. intros Hel H. revert lens Hel. induction H as [|e t He _ IH]; intros lens Hel; [constructor|].
+  destruct e as [r d|r d].
+  - destruct lens as [|len lens']; cbn [so].
+    + constructor; [exact He | apply IH; rewrite slot_pairs_nil; constructor].
+    + cbn [slot_pairs] in Hel. inversion Hel as [|? ? H1 H2]; subst.
+      apply Forall_app. split; [|apply IH; exact H2].
+      destruct (d =? 0) eqn:Ed; cbn [andb].
+      * destruct (0 <? len) eqn:El.
+        -- constructor; [cbn; unfold SPECIAL_THRESHOLD; lia|]. apply Forall_forall. intros x Hx.
+           apply repeat_spec in Hx. subst x. cbn. unfold SPECIAL_THRESHOLD. lia.
+        -- constructor; [|constructor]. cbn. apply H1; [apply N.eqb_eq; exact Ed|]. apply N.ltb_ge in El. lia.
+      * constructor; [|constructor]. cbn in *. apply N.eqb_neq in Ed. lia.
+  - cbn [so]. constructor; [exact He | apply IH; exact Hel].
+Qed.
+
+Lemma skip_both_pre pre d0 drest rrest dw rw nl p :
+  all_spec pre -> Forall ent_enc_ok pre -> is_special d0 = false ->
+  skip_both (map enc_def pre ++ d0 :: drest) (map e_rep pre ++ rrest) dw rw nl p
+  = Ok (d0, drest, rrest, rev (map enc_def pre) ++ dw, rev (map e_rep pre) ++ rw, (nl + length pre)%nat, (p + length pre)%nat).
+Proof.
+  intros Hs Hok Hd. revert dw rw nl p. induction pre as [|e t IH]; intros dw rw nl p.
+  - cbn. rewrite Hd, !Nat.add_0_r. reflexivity.
+  - inversion Hs as [|? ? He Hs']; subst. inversion Hok as [|? ? Ho Hok']; subst.
+    cbn [map app skip_both]. rewrite (enc_special e Ho), He. cbn [negb].
+    rewrite (IH Hs' Hok'). cbn [rev length]. rewrite <- !app_assoc. cbn [app].
+    rewrite !Nat.add_succ_r. cbn [Nat.add]. reflexivity.
+Qed.
+
+Lemma push_zeros_eq k x w : 0 < k -> push_zeros k (x :: w) = rev (x :: zeros (N.to_nat (k - 1))) ++ w.
+Proof.
+  intros _. unfold push_zeros, zeros. cbn [rev]. rewrite rev_repeat, <- app_assoc. reflexivity.
+Qed.
+
+Lemma so_app_trail lens rl el body tr : all_spec tr -> so lens rl el (body ++ tr) = so lens rl el body ++ tr.
+Proof.
+  intros Ht. revert lens. induction body as [|[r d|r d] t IH]; intros lens.
+  - cbn [app]. apply so_all_spec. exact Ht.
+  - destruct lens; cbn [app so]; rewrite IH; [reflexivity|]. rewrite app_assoc. reflexivity.
+  - cbn [app so]. rewrite IH. reflexivity.
+Qed.
+
+Lemma map_enc_chunk ll k : map enc_def (Slot ll 0 :: repeat (Slot 0 0) k) = 0 :: zeros k.
+Proof. cbn [map enc_def]. unfold zeros. rewrite map_repeat'. reflexivity. Qed.
+Lemma map_rep_chunk ll k : map e_rep (Slot ll 0 :: repeat (Slot 0 0) k) = ll :: zeros k.
+Proof. cbn [map e_rep]. unfold zeros. rewrite map_repeat'. reflexivity. Qed.
+Lemma length_chunk ll len : 0 < len -> length (Slot ll 0 :: repeat (Slot 0 0) (N.to_nat (len - 1))) = N.to_nat len.
+Proof. intros H. cbn [length]. rewrite repeat_length. lia. Qed.
+
+Lemma ro_def_spec rl el : forall lens es dw rw nl p jd jr,
+  Forall ent_enc_ok es -> slots es = length lens ->
+  exists body tr, es = body ++ tr /\ all_spec tr /\
+    ro_def lens rl el (map enc_def es ++ jd) (map e_rep es ++ jr) dw rw nl p
+      = Ok (map enc_def tr ++ jd, map e_rep tr ++ jr,
+            rev (map enc_def (so lens rl el body)) ++ dw, rev (map e_rep (so lens rl el body)) ++ rw,
+            (nl + length (so lens rl el body))%nat, (p + specs body)%nat).
+Proof.
+  induction lens as [|len lens IH]; intros es dw rw nl p jd jr Hok Hsl.
+  - exists [], es. split; [reflexivity|]. split; [apply slots_zero_all_spec; exact Hsl|].
+    cbn. rewrite !Nat.add_0_r. reflexivity.
+  - cbn [length] in Hsl. destruct (split_first_slot es _ Hsl) as (pre & r & d & rest & E & Hpre & Hrest). subst es.
+    apply Forall_app in Hok as [Hokpre Hok2]. inversion Hok2 as [|? ? Hslot Hokrest]; subst.
+    set (ll := if r =? 0 then rl else r).
+    set (chunk := if (d =? 0) && (0 <? len) then Slot ll 0 :: repeat (Slot 0 0) (N.to_nat (len - 1))
+                  else if d =? 0 then [Spec ll el] else [Spec ll d]).
+    destruct (IH rest (rev (map enc_def chunk) ++ rev (map enc_def pre) ++ dw)
+                      (rev (map e_rep chunk) ++ rev (map e_rep pre) ++ rw)
+                      (nl + length pre + length chunk)%nat (p + length pre)%nat jd jr Hokrest Hrest)
+      as (body & tr & E & Htr & Hloop).
+    exists (pre ++ Slot r d :: body), tr. subst rest. split; [rewrite <- app_assoc; reflexivity|]. split; [exact Htr|].
+    cbn [ro_def]. rewrite !map_app, <- !app_assoc. cbn [map app enc_def e_rep].
+    rewrite skip_both_pre; [|exact Hpre|exact Hokpre|].
+    2:{ unfold is_special. apply N.ltb_ge. exact Hslot. }
+    cbn [bind]. fold ll.
+    assert (Hso : so (len :: lens) rl el (pre ++ Slot r d :: body) = pre ++ chunk ++ so lens rl el body).
+    { rewrite so_pre by exact Hpre. cbn [so]. fold ll. reflexivity. }
+    rewrite Hso. rewrite !map_app, !rev_app_distr, !app_length, <- !app_assoc.
+    rewrite !map_app, <- !app_assoc in Hloop.
+    destruct (d =? 0) eqn:Ed; cbn [andb] in *.
+    + destruct (0 <? len) eqn:El.
+      * apply N.ltb_lt in El.
+        rewrite !push_zeros_eq by exact El. subst chunk.
+        rewrite map_enc_chunk, map_rep_chunk, length_chunk in * by exact El.
+        rewrite Hloop. f_equal. f_equal; [f_equal|].
+        -- lia.
+        -- rewrite specs_app, specs_cons_slot, (all_spec_specs pre Hpre). lia.
+      * subst chunk. cbn [map enc_def e_rep rev app] in *.
+        replace (S (nl + length pre)) with (nl + length pre + length [Spec ll el])%nat by (cbn; lia).
+        rewrite Hloop. f_equal. f_equal; [f_equal|].
+        -- cbn [length]. lia.
+        -- rewrite specs_app, specs_cons_slot, (all_spec_specs pre Hpre). lia.
+    + subst chunk. cbn [map enc_def e_rep rev app] in *.
+      replace (S (nl + length pre)) with (nl + length pre + length [Spec ll d])%nat by (cbn; lia).
+      rewrite Hloop. f_equal. f_equal; [f_equal|].
+      * cbn [length]. lia.
+      * rewrite specs_app, specs_cons_slot, (all_spec_specs pre Hpre). lia.
+Qed.
+
+Lemma copy_both_all (ld lr : list N) jd jr dw rw : length ld = length lr ->
+  copy_both (length ld) (ld ++ jd) (lr ++ jr) dw rw = Ok (rev ld ++ dw, rev lr ++ rw).
+Proof.
+  revert lr dw rw. induction ld as [|x t IH]; intros [|y lr] dw rw H; try discriminate; [reflexivity|].
+  cbn [length app copy_both]. rewrite IH by (cbn in H; lia). cbn [rev]. rewrite <- !app_assoc. reflexivity.
+Qed.
+
+Lemma so_length_ge lens rl el es : (length es <= length (so lens rl el es))%nat.
+Proof.
+  revert lens. induction es as [|[r d|r d] t IH]; intros lens; [cbn; lia| |].
+  - destruct lens as [|len lens']; cbn [so length]; [specialize (IH []); lia|].
+    rewrite app_length. specialize (IH lens').
+    destruct ((d =? 0) && (0 <? len)); [|destruct (d =? 0)]; cbn [length]; lia.
+  - cbn [so length]. specialize (IH lens). lia.
+Qed.
+
+(* the part of record_offsets after the optional do_record_validity *)
+Definition ro_tail (c3 : ctx) (lens : list N) (rl el : N) (num_values num_specials : nat) : outcome ctx :=
+  do _ <- assert_ (negb (Nat.eqb (num_values + c_specials c3) 0));
+  do _ <- assert_ (Nat.leb (num_values + c_specials c3 - 1) (length (c_rep c3)));
+  if is_nil (c_def c3) then
+    do '(w, new_len) <- ro_nodef lens rl (c_rep c3) [] O;
+    do nr <- commit w (c_srep c3);
+    Ok (set_bufs c3 nr (c_rep c3) (c_def c3) (c_sdef c3) new_len (c_specials c3 + num_specials))
+  else
+    do _ <- assert_ (Nat.leb (num_values + c_specials c3 - 1) (length (c_def c3)));
+    do '(dr, rr, dw, rw, new_len, passed) <- ro_def lens rl el (c_def c3) (c_rep c3) [] [] O O;
+    do '(dw', rw') <- copy_both (c_specials c3 - passed) dr rr dw rw;
+    let new_len' := (new_len + (c_specials c3 - passed))%nat in
+    do nd <- commit dw' (c_sdef c3);
+    do nr <- commit rw' (c_srep c3);
+    Ok (set_bufs c3 nr (c_rep c3) nd (c_def c3) new_len' (c_specials c3 + num_specials)).
+
+Lemma ro_tail_def_ok total c es cr cd ms cl lens rl el nv nsp :
+  cinv true true total c es cr cd ms cl ->
+  slots es = length lens -> nv = length lens -> (1 <= length es)%nat ->
+  so_el_ok el es lens ->
+  (length (so lens rl el es) <= total)%nat ->
+  specs (so lens rl el es) = (specs es + nsp)%nat ->
+  exists c', ro_tail c lens rl el nv nsp = Ok c' /\
+    cinv true true total c' (so lens rl el es) cr cd ms (length (so lens rl el es)).
+Proof.
+  intros [Hrep Hdef Hsp Hlen Henc Hcr Hcd Hms] Hsl Hnv H1 Hel Htot Hnsp.
+  destruct Hdef as (jd & Ed & Ld & Lsd). destruct Hrep as (jr & Er & Lr & Lsr).
+  pose proof (slots_specs_length es) as Hss. pose proof (so_length_ge lens rl el es) as Hge.
+  unfold ro_tail.
+  replace (negb (Nat.eqb (nv + c_specials c) 0)) with true
+    by (symmetry; apply negb_true_iff, Nat.eqb_neq; rewrite Hsp; lia).
+  cbn [assert_ bind].
+  replace (Nat.leb (nv + c_specials c - 1) (length (c_rep c))) with true
+    by (symmetry; apply Nat.leb_le; rewrite Hsp, Lr; lia).
+  cbn [assert_ bind].
+  assert (Hnil : is_nil (c_def c) = false).
+  { destruct (c_def c) eqn:E; [|reflexivity]. cbn in Ld. lia. }
+  rewrite Hnil.
+  replace (Nat.leb (nv + c_specials c - 1) (length (c_def c))) with true
+    by (symmetry; apply Nat.leb_le; rewrite Hsp, Ld; lia).
+  cbn [assert_ bind].
+  destruct (ro_def_spec rl el lens es [] [] O O jd jr Henc Hsl) as (body & tr & E & Htr & Hloop).
+  rewrite Ed, Er, Hloop. cbn [bind].
+  assert (Hsp2 : (c_specials c - (0 + specs body) = length (map enc_def tr))%nat).
+  { rewrite Hsp, E, specs_app, (all_spec_specs tr Htr), map_length. lia. }
+  rewrite Hsp2, copy_both_all by (rewrite !map_length; reflexivity). cbn [bind].
+  assert (Hso : so lens rl el es = so lens rl el body ++ tr) by (rewrite E; apply so_app_trail; exact Htr).
+  assert (Hwd : rev (map enc_def tr) ++ rev (map enc_def (so lens rl el body)) ++ [] = rev (map enc_def (so lens rl el es))).
+  { rewrite app_nil_r, Hso, map_app, rev_app_distr. reflexivity. }
+  assert (Hwr : rev (map e_rep tr) ++ rev (map e_rep (so lens rl el body)) ++ [] = rev (map e_rep (so lens rl el es))).
+  { rewrite app_nil_r, Hso, map_app, rev_app_distr. reflexivity. }
+  rewrite Hwd, Hwr.
+  rewrite !commit_ok by (rewrite rev_length, map_length; lia).
+  cbn [bind]. eexists. split; [reflexivity|].
+  constructor; cbn [set_bufs c_rep c_srep c_def c_sdef c_specials c_len c_cur_rep c_cur_def c_meaning]; try assumption.
+  - rewrite rev_involutive. eexists. split; [reflexivity|]. split; [|rewrite <- Er; exact Lr].
+    rewrite app_length, skipn_length, !rev_length, !map_length. lia.
+  - rewrite rev_involutive. eexists. split; [reflexivity|]. split; [|rewrite <- Ed; exact Ld].
+    rewrite app_length, skipn_length, !rev_length, !map_length. lia.
+  - rewrite Hnsp, Hsp. reflexivity.
+  - rewrite map_length. rewrite Hso, app_length. lia.
+  - apply so_enc_ok; assumption.
+Qed.
+
+Definition plain (e : ent) : Prop := e = Slot (e_rep e) 0.
+
+Lemma plain_specs es : Forall plain es -> specs es = O /\ slots es = length es.
+Proof.
+  induction 1 as [|e t He _ [IH1 IH2]]; [split; reflexivity|]. rewrite He.
+  rewrite specs_cons_slot, slots_cons_slot. cbn [length]. split; [exact IH1 | rewrite IH2; reflexivity].
+Qed.
+
+Lemma so_plain lens rl el es : Forall plain es -> length es = length lens -> Forall (fun l => 0 < l) lens ->
+  Forall plain (so lens rl el es).
+Proof.
+  intros H. revert lens. induction H as [|e t He _ IH]; intros lens Hlen Hpos; [constructor|].
+  rewrite He. destruct lens as [|len lens']; [discriminate|]. cbn [so].
+  inversion Hpos as [|? ? Hl Hpos']; subst. apply N.ltb_lt in Hl. rewrite N.eqb_refl, Hl. cbn [andb].
+  apply Forall_app. split; [|apply IH; [cbn in Hlen; lia | exact Hpos']].
+  constructor; [reflexivity|]. apply Forall_forall. intros x Hx. apply repeat_spec in Hx. subst x. reflexivity.
+Qed.
+
+Lemma ro_nodef_spec rl el : forall lens es w nl jr,
+  Forall plain es -> length es = length lens -> Forall (fun l => 0 < l) lens ->
+  ro_nodef lens rl (map e_rep es ++ jr) w nl
+  = Ok (rev (map e_rep (so lens rl el es)) ++ w, (nl + length (so lens rl el es))%nat).
+Proof.
+  induction lens as [|len lens IH]; intros es w nl jr Hp Hlen Hpos.
+  - destruct es; [|discriminate]. cbn. rewrite Nat.add_0_r. reflexivity.
+  - destruct es as [|e t]; [discriminate|]. inversion Hp as [|? ? He Hp']; subst.
+    inversion Hpos as [|? ? Hl Hpos']; subst. rewrite He.
+    cbn [map app e_rep ro_nodef so].
+    assert (El : len =? 0 = false) by (apply N.eqb_neq; lia). rewrite El.
+    apply N.ltb_lt in Hl. rewrite N.eqb_refl, Hl. cbn [andb]. apply N.ltb_lt in Hl.
+    rewrite push_zeros_eq by exact Hl.
+    rewrite IH; [|exact Hp'|cbn in Hlen; lia|exact Hpos'].
+    rewrite map_app, rev_app_distr, map_rep_chunk, app_length, length_chunk by exact Hl.
+    rewrite <- app_assoc. f_equal. f_equal. lia.
+Qed.
+
+Lemma ro_tail_nodef_ok total c es cr cd ms cl lens rl el nv nsp :
+  cinv true false total c es cr cd ms cl ->
+  length es = length lens -> nv = length lens -> (1 <= length es)%nat ->
+  Forall (fun l => 0 < l) lens -> nsp = O ->
+  (length (so lens rl el es) <= total)%nat ->
+  exists c', ro_tail c lens rl el nv nsp = Ok c' /\
+    cinv true false total c' (so lens rl el es) cr cd ms (length (so lens rl el es)).
+Proof.
+  intros [Hrep Hdef Hsp Hlen Henc Hcr Hcd Hms] Hsl Hnv H1 Hpos Hnsp Htot.
+  destruct Hdef as (Ed & Esd & Hplain). destruct Hrep as (jr & Er & Lr & Lsr).
+  destruct (plain_specs es Hplain) as [Hs0 Hsl2].
+  pose proof (so_length_ge lens rl el es) as Hge.
+  unfold ro_tail.
+  replace (negb (Nat.eqb (nv + c_specials c) 0)) with true
+    by (symmetry; apply negb_true_iff, Nat.eqb_neq; rewrite Hsp; lia).
+  cbn [assert_ bind].
+  replace (Nat.leb (nv + c_specials c - 1) (length (c_rep c))) with true
+    by (symmetry; apply Nat.leb_le; rewrite Hsp, Lr; lia).
+  cbn [assert_ bind]. rewrite Ed. cbn [is_nil].
+  rewrite Er, (ro_nodef_spec rl el lens es [] O jr Hplain Hsl Hpos). cbn [bind].
+  rewrite app_nil_r, commit_ok by (rewrite rev_length, map_length; lia).
+  cbn [bind]. eexists. split; [reflexivity|].
+  pose proof (so_plain lens rl el es Hplain Hsl Hpos) as Hplain2.
+  constructor; cbn [set_bufs c_rep c_srep c_def c_sdef c_specials c_len c_cur_rep c_cur_def c_meaning]; try assumption.
+  - rewrite rev_involutive. eexists. split; [reflexivity|]. split; [|rewrite <- Er; exact Lr].
+    rewrite app_length, skipn_length, !rev_length, !map_length. lia.
+  - repeat split; assumption.
+  - rewrite Hnsp, Hsp, Hs0. destruct (plain_specs _ Hplain2) as [-> _]. reflexivity.
+  - reflexivity.
+  - apply Forall_forall. intros x Hx. rewrite Forall_forall in Hplain2. rewrite (Hplain2 x Hx). cbn. unfold SPECIAL_THRESHOLD. lia.
+Qed.
+
+(* ---------------------------------------------------------------------------------------------- *)
+(* 2.5 layers: preconditions under which the buffer model follows the abstract serializer          *)
+
+Definition list_levels (v : option (list bool)) (he : bool) (cd : N) : meaning * N * N :=
+  match is_some v, he with
+  | true, true => (NullableAndEmptyableList, cd - 1, cd)
+  | true, false => (NullableList, cd, 0)
+  | false, true => (EmptyableList, 0, cd)
+  | false, false => (AllValidList, 0, 0)
+  end.
+
+Definition layer_pre (hr hd : bool) (total : nat) (r : raw) (es : list ent) (cr cd : N) (cl : nat) : Prop :=
+  match r with
+  | RValidity None _ => True
+  | RValidity (Some v) _ =>
+      hd = true /\ slots es = length v /\ cd <= SPECIAL_THRESHOLD /\ (cl = 0 \/ cl = length v + specs es)%nat
+      /\ (length es <= total)%nat
+  | RFsl _ _ _ => False
+  | ROffsets o v he n sp =>
+      let '(m, nl, el) := list_levels v he cd in
+      let lens := windows_len o in
+      let es1 := match v with Some vs => sv vs nl es | None => es end in
+      hr = true /\ slots es = length lens /\ n = length lens /\ (1 <= length es)%nat /\ (length es <= total)%nat /\
+      match v with
+      | Some vs => hd = true /\ length vs = n /\ nl <= SPECIAL_THRESHOLD /\ (cl = 0 \/ cl = n + specs es)%nat
+      | None => True
+      end /\
+      (if hd then so_el_ok el es1 lens else Forall (fun l => 0 < l) lens /\ sp = O) /\
+      (length (so lens cr el es1) <= total)%nat /\ specs (so lens cr el es1) = (specs es + sp)%nat
+  end.
+
+(* current_len after the layer *)
+Definition layer_len (r : raw) (st : astate) (cl : nat) : nat :=
+  match r with
+  | RValidity None _ => cl
+  | RValidity (Some v) _ => length v
+  | RFsl _ _ _ => cl
+  | ROffsets _ _ _ _ _ => let '(es, _, _, _) := a_layer r st in length es
+  end.
+
+Fixpoint layers_pre (hr hd : bool) (total : nat) (rs : list raw) (st : astate) (cl : nat) : Prop :=
+  match rs with
+  | [] => True
+  | r :: rs' =>
+      let '(es, cr, cd, _) := st in
+      layer_pre hr hd total r es cr cd cl /\ layers_pre hr hd total rs' (a_layer r st) (layer_len r st cl)
+  end.
+Fixpoint layers_len (rs : list raw) (st : astate) (cl : nat) : nat :=
+  match rs with
+  | [] => cl
+  | r :: rs' => layers_len rs' (a_layer r st) (layer_len r st cl)
+  end.
+
+Lemma checkout_cinv hr hd total c es cr cd ms cl m :
+  cinv hr hd total c es cr cd ms cl ->
+  snd (checkout_def c m) = cd /\ cinv hr hd total (fst (checkout_def c m)) es cr (cd - num_def_levels m) (ms ++ [m]) cl.
+Proof.
+  intros [Hrep Hdef Hsp Hlen Henc Hcr Hcd Hms]. unfold checkout_def. cbn [fst snd]. split; [exact Hcd|].
+  constructor; cbn [c_rep c_srep c_def c_sdef c_specials c_len c_cur_rep c_cur_def c_meaning]; try assumption; congruence.
+Qed.
+
+Lemma record_layer_ok hr hd total c r es cr cd ms cl :
+  cinv hr hd total c es cr cd ms cl ->
+  layer_pre hr hd total r es cr cd cl ->
+  exists c', record_layer c r = Ok c' /\
+    let '(es', cr', cd', ms') := a_layer r (es, cr, cd, ms) in
+    cinv hr hd total c' es' cr' cd' ms' (layer_len r (es, cr, cd, ms) cl).
+Proof.
+  intros Hc Hpre. destruct r as [o v he n sp | v n | v dim n]; cbn [layer_pre] in Hpre; [| |contradiction].
+  - (* offsets *)
+    cbn [record_layer layer_len a_layer].
+    unfold record_offsets.
+    assert (Hlv : (match is_some v, he with
+                   | true, true => let '(c', level) := checkout_def c NullableAndEmptyableList in (c', level - 1, level)
+                   | true, false => let '(c', level) := checkout_def c NullableList in (c', level, 0)
+                   | false, true => let '(c', level) := checkout_def c EmptyableList in (c', 0, level)
+                   | false, false => let '(c', _) := checkout_def c AllValidList in (c', 0, 0)
+                   end) = (fst (checkout_def c (fst (fst (list_levels v he cd)))), snd (fst (list_levels v he cd)), snd (list_levels v he cd))).
+    { pose proof (cv_cd _ _ _ _ _ _ _ _ _ Hc) as Hcd. unfold list_levels.
+      destruct (is_some v), he; unfold checkout_def; cbn [fst snd]; rewrite Hcd; reflexivity. }
+    rewrite Hlv. clear Hlv.
+    destruct (list_levels v he cd) as [[m nl] el] eqn:Elv. cbn [fst snd] in *.
+    destruct Hpre as (Hhr & Hsl & Hn & H1 & Hle & Hv & Hel & Htot & Hsp). subst hr.
+    destruct (checkout_cinv _ _ _ _ _ _ _ _ _ m Hc) as [_ Hc1].
+    set (c1 := fst (checkout_def c m)) in *.
+    set (c2 := {| c_meaning := c_meaning c1; c_rep := c_rep c1; c_srep := c_srep c1; c_def := c_def c1; c_sdef := c_sdef c1;
+                  c_cur_rep := c_cur_rep c1 - 1; c_cur_def := c_cur_def c1; c_len := c_len c1; c_specials := c_specials c1 |}).
+    assert (Hc2 : cinv true hd total c2 es (cr - 1) (cd - num_def_levels m) (ms ++ [m]) cl).
+    { destruct Hc1 as [Hrep Hdef Hsp' Hlen Henc Hcr Hcd Hms]. subst c2.
+      constructor; cbn [c_rep c_srep c_def c_sdef c_specials c_len c_cur_rep c_cur_def c_meaning]; try assumption.
+      rewrite Hcr. reflexivity. }
+    assert (Hrl : c_cur_rep c = cr) by (apply (cv_cr _ _ _ _ _ _ _ _ _ Hc)). rewrite Hrl.
+    fold (ro_tail).
+    change (do c3 <- match v with Some v0 => do_record_validity c2 v0 nl | None => Ok c2 end;
+            ro_tail c3 (windows_len o) cr el n sp) with
+      (bind (match v with Some v0 => do_record_validity c2 v0 nl | None => Ok c2 end)
+            (fun c3 => ro_tail c3 (windows_len o) cr el n sp)).
+    destruct v as [vs|].
+    + destruct Hv as (Hhd & Hlv & Hnl & Hcl). subst hd.
+      destruct (drv_ok true total c2 es (cr - 1) (cd - num_def_levels m) (ms ++ [m]) cl vs nl Hc2) as (c3 & E3 & Hc3);
+        [congruence | exact Hnl | rewrite Hlv; exact Hcl | exact Hle |].
+      rewrite E3. cbn [bind].
+      destruct (ro_tail_def_ok total c3 (sv vs nl es) (cr - 1) (cd - num_def_levels m) (ms ++ [m]) (length vs)
+                               (windows_len o) cr el n sp Hc3) as (c' & E' & Hc');
+        [rewrite sv_slots; exact Hsl | exact Hn | rewrite sv_length; exact H1 | exact Hel | exact Htot
+        | rewrite sv_specs; exact Hsp |].
+      exists c'. split; [exact E'|]. unfold list_levels in Elv. cbn [is_some] in *.
+      destruct he; inversion Elv; subst; exact Hc'.
+    + cbn [bind]. destruct hd.
+      * destruct (ro_tail_def_ok total c2 es (cr - 1) (cd - num_def_levels m) (ms ++ [m]) cl
+                               (windows_len o) cr el n sp Hc2) as (c' & E' & Hc'); try assumption.
+        exists c'. split; [exact E'|]. unfold list_levels in Elv. cbn [is_some] in *.
+        destruct he; inversion Elv; subst; exact Hc'.
+      * destruct Hel as [Hpos Hsp0].
+        assert (Hplain : Forall plain es) by (destruct Hc2 as [_ (_ & _ & Hp) _ _ _ _ _ _]; exact Hp).
+        destruct (plain_specs es Hplain) as [_ Hsl2].
+        destruct (ro_tail_nodef_ok total c2 es (cr - 1) (cd - num_def_levels m) (ms ++ [m]) cl
+                               (windows_len o) cr el n sp Hc2) as (c' & E' & Hc'); try assumption; [congruence|].
+        exists c'. split; [exact E'|]. unfold list_levels in Elv. cbn [is_some] in *.
+        destruct he; inversion Elv; subst; exact Hc'.
+  - (* validity *)
+    cbn [record_layer]. unfold record_validity_buf. destruct v as [vs|].
+    + destruct Hpre as (Hhd & Hsl & Hcd & Hcl & Hle). subst hd.
+      destruct (checkout_cinv _ _ _ _ _ _ _ _ _ NullableItem Hc) as [Hlevel Hc1].
+      destruct (checkout_def c NullableItem) as [c1 level] eqn:Eco. cbn [fst snd] in *. subst level.
+      destruct (drv_ok hr total c1 es cr (cd - 1) (ms ++ [NullableItem]) cl vs cd Hc1 Hsl Hcd Hcl Hle) as (c' & E' & Hc').
+      exists c'. split; [exact E'|]. cbn [a_layer a_validity layer_len]. exact Hc'.
+    + destruct (checkout_cinv _ _ _ _ _ _ _ _ _ AllValidItem Hc) as [_ Hc1].
+      eexists. split; [reflexivity|]. cbn [a_layer a_validity layer_len num_def_levels] in *.
+      rewrite N.sub_0_r in Hc1. exact Hc1.
+Qed.
+
+Lemma record_layers_ok hr hd total : forall rs c es cr cd ms cl,
+  cinv hr hd total c es cr cd ms cl ->
+  layers_pre hr hd total rs (es, cr, cd, ms) cl ->
+  exists c', record_layers c rs = Ok c' /\
+    let '(es', cr', cd', ms') := a_layers rs (es, cr, cd, ms) in
+    cinv hr hd total c' es' cr' cd' ms' (layers_len rs (es, cr, cd, ms) cl).
+Proof.
+  induction rs as [|r rs IH]; intros c es cr cd ms cl Hc Hpre.
+  - exists c. split; [reflexivity|]. exact Hc.
+  - cbn [layers_pre] in Hpre. destruct Hpre as [Hp1 Hp2].
+    destruct (record_layer_ok _ _ _ _ _ _ _ _ _ _ Hc Hp1) as (c1 & E1 & Hc1).
+    cbn [record_layers]. rewrite E1. cbn [bind].
+    unfold a_layers. cbn [fold_left layers_len]. fold (a_layers rs (a_layer r (es, cr, cd, ms))).
+    destruct (a_layer r (es, cr, cd, ms)) as [[[es1 cr1] cd1] ms1] eqn:E.
+    exact (IH c1 es1 cr1 cd1 ms1 _ Hc1 Hp2).
+Qed.
